@@ -556,104 +556,7 @@ func c05workers(c *Ctx) {
 		{"C05.R6", "core/mr", "executeMappers", false, "var:pool", "var:wg", nil, "mapper"},
 		{"C05.R6", "core/fx", "(Stream).walkLimited", true, "var:pool", "var:wg", nil, "fn"},
 	}
-	for _, in := range insts {
-		f := c.fn(in.rule, in.pkg, in.parent)
-		if f == nil {
-			continue
-		}
-		parent := f
-		if in.outerGo {
-			parent = c.closure(in.rule, f, "producer goroutine", func(a *ssa.Function) bool {
-				return a.Parent() == f && len(a.AnonFuncs) > 0
-			})
-			if parent == nil {
-				continue
-			}
-		}
-		name := in.pkg + "." + in.parent
-		ps := c.paths(in.rule, parent, px.Config{MaxVisits: 2, Model: stdModel})
-		var worker *ssa.Function
-		isWG := func(p *px.Path, e *px.Event, m string) bool {
-			if e.Kind != px.EvCall || e.Call.Obj() == nil || e.Call.Obj().FullName() != "(*sync.WaitGroup)."+m {
-				return false
-			}
-			return chanKey(p, e.Call.Recv) == in.wg
-		}
-		c.forall(in.rule, name+"#acquire", "a slot is taken (send on the semaphore) and the wait-group incremented before each worker goroutine starts; slots taken but not handed to a worker are given back before returning", parent, ps, func(p *px.Path) (bool, string) {
-			held, added := 0, 0
-			for i := range p.Events {
-				e := &p.Events[i]
-				switch {
-				case (e.Kind == px.EvSend || (e.Kind == px.EvSelect && e.SelIndex >= 0 && e.SelDir == types.SendOnly)) && chanKey(p, e.Addr) == in.sem:
-					held++
-				case (e.Kind == px.EvRecv || (e.Kind == px.EvSelect && e.SelIndex >= 0 && e.SelDir == types.RecvOnly)) && chanKey(p, e.Addr) == in.sem:
-					held--
-				case e.Kind == px.EvClose && chanKey(p, e.Addr) == in.sem:
-					return false, "the semaphore channel is closed"
-				case isWG(p, e, "Add"):
-					if a := p.Abs(e.Call.Args[1]); a.K != px.ConstV || !constant.Compare(a.C, token.EQL, constant.MakeInt64(1)) {
-						return false, "wait-group incremented by something other than 1"
-					}
-					added++
-				case isWG(p, e, "Done"):
-					added--
-				case e.Kind == px.EvCall && e.Call.IsDyn() && !e.InGo && isUserFn(e.Call.FnSym, in.userName):
-					// the dispatcher runs the user function itself ("caller runs" when all slots are busy):
-					// that invocation holds no slot, so n workers + the dispatcher = n+1 run at once (seed r3-C05-2)
-					return false, "the user function is also run by the dispatching goroutine itself, outside any slot: with all slots taken one more invocation runs than the configured number of workers"
-				default:
-					if w := spawnedClosure(e); w != nil {
-						worker = w
-						if held < 1 {
-							return false, "a worker starts without a slot having been taken first"
-						}
-						if added < 1 {
-							return false, "a worker starts without the wait-group having been incremented"
-						}
-						held--
-						added--
-					}
-				}
-			}
-			if p.Exit == px.ExitReturn && (held != 0 || added != 0) {
-				return false, fmt.Sprintf("on return %d slot(s) and %d wait-group count(s) are neither handed to a worker nor given back", held, added)
-			}
-			return true, ""
-		})
-		if worker == nil {
-			c.R.Undecided(in.rule, name+"#worker", "anchor resolves", "no worker goroutine closure found in "+name)
-			continue
-		}
-		wps := c.paths(in.rule, worker, px.Config{Model: stdModel, MayPanic: userPanics})
-		c.forall(in.rule, name+"#release", "the worker runs the user function once and, on every exit incl. its panic, releases its slot (one receive) and the wait-group (one Done), after the user function", worker, wps, func(p *px.Path) (bool, string) {
-			users := p.All(func(e *px.Event) bool { return e.Kind == px.EvCall && e.Call.IsDyn() })
-			if len(users) != 1 {
-				return false, fmt.Sprintf("user function called %d times", len(users))
-			}
-			rel, done := 0, 0
-			for i := range p.Events {
-				e := &p.Events[i]
-				switch {
-				case (e.Kind == px.EvRecv || (e.Kind == px.EvSelect && e.SelIndex >= 0 && e.SelDir == types.RecvOnly)) && chanKey(p, e.Addr) == in.sem:
-					rel++
-					if e.Seq < users[0].Seq {
-						return false, "slot released before the user function ran"
-					}
-				case (e.Kind == px.EvSend) && chanKey(p, e.Addr) == in.sem:
-					return false, "worker sends on the semaphore"
-				case isWG(p, e, "Done"):
-					done++
-					if e.Seq < users[0].Seq {
-						return false, "wait-group released before the user function ran"
-					}
-				}
-			}
-			if rel != 1 || done != 1 {
-				return false, fmt.Sprintf("slot released ×%d, wait-group Done ×%d on exit %s", rel, done, p.Exit)
-			}
-			return true, ""
-		})
-	}
+	c05semInsts(c, insts)
 	// ScheduleImmediately: busy ⇒ ErrTaskRunnerBusy and no goroutine
 	if f := c.fn("C05.R4", "core/threading", "(*TaskRunner).ScheduleImmediately"); f != nil {
 		ps := c.paths("C05.R4", f, px.Config{})
@@ -1048,4 +951,107 @@ func semaphoreCapacity(c *Ctx, rule, pkg, fn, field string) {
 	}
 	scan(f)
 	c.R.Check(ok, rule, pkg+"."+fn+"#capacity", "the worker semaphore is a buffered channel whose capacity is the configured worker count", posOf(c, f), "no make(chan struct{}, <workers>) found: the number of concurrently running workers is no longer tied to the configured count (e.g. sized from another channel's capacity)", nil, 1)
+}
+
+// c05semInsts checks the acquire-before-spawn / release-on-every-exit discipline of worker semaphores (also used by C12
+// for the task runner that delivers drained timers).
+func c05semInsts(c *Ctx, insts []semInst) {
+	for _, in := range insts {
+		f := c.fn(in.rule, in.pkg, in.parent)
+		if f == nil {
+			continue
+		}
+		parent := f
+		if in.outerGo {
+			parent = c.closure(in.rule, f, "producer goroutine", func(a *ssa.Function) bool {
+				return a.Parent() == f && len(a.AnonFuncs) > 0
+			})
+			if parent == nil {
+				continue
+			}
+		}
+		name := in.pkg + "." + in.parent
+		ps := c.paths(in.rule, parent, px.Config{MaxVisits: 2, Model: stdModel})
+		var worker *ssa.Function
+		isWG := func(p *px.Path, e *px.Event, m string) bool {
+			if e.Kind != px.EvCall || e.Call.Obj() == nil || e.Call.Obj().FullName() != "(*sync.WaitGroup)."+m {
+				return false
+			}
+			return chanKey(p, e.Call.Recv) == in.wg
+		}
+		c.forall(in.rule, name+"#acquire", "a slot is taken (send on the semaphore) and the wait-group incremented before each worker goroutine starts; slots taken but not handed to a worker are given back before returning", parent, ps, func(p *px.Path) (bool, string) {
+			held, added := 0, 0
+			for i := range p.Events {
+				e := &p.Events[i]
+				switch {
+				case (e.Kind == px.EvSend || (e.Kind == px.EvSelect && e.SelIndex >= 0 && e.SelDir == types.SendOnly)) && chanKey(p, e.Addr) == in.sem:
+					held++
+				case (e.Kind == px.EvRecv || (e.Kind == px.EvSelect && e.SelIndex >= 0 && e.SelDir == types.RecvOnly)) && chanKey(p, e.Addr) == in.sem:
+					held--
+				case e.Kind == px.EvClose && chanKey(p, e.Addr) == in.sem:
+					return false, "the semaphore channel is closed"
+				case isWG(p, e, "Add"):
+					if a := p.Abs(e.Call.Args[1]); a.K != px.ConstV || !constant.Compare(a.C, token.EQL, constant.MakeInt64(1)) {
+						return false, "wait-group incremented by something other than 1"
+					}
+					added++
+				case isWG(p, e, "Done"):
+					added--
+				case e.Kind == px.EvCall && e.Call.IsDyn() && !e.InGo && isUserFn(e.Call.FnSym, in.userName):
+					// the dispatcher runs the user function itself ("caller runs" when all slots are busy):
+					// that invocation holds no slot, so n workers + the dispatcher = n+1 run at once (seed r3-C05-2)
+					return false, "the user function is also run by the dispatching goroutine itself, outside any slot: with all slots taken one more invocation runs than the configured number of workers"
+				default:
+					if w := spawnedClosure(e); w != nil {
+						worker = w
+						if held < 1 {
+							return false, "a worker starts without a slot having been taken first"
+						}
+						if added < 1 {
+							return false, "a worker starts without the wait-group having been incremented"
+						}
+						held--
+						added--
+					}
+				}
+			}
+			if p.Exit == px.ExitReturn && (held != 0 || added != 0) {
+				return false, fmt.Sprintf("on return %d slot(s) and %d wait-group count(s) are neither handed to a worker nor given back", held, added)
+			}
+			return true, ""
+		})
+		if worker == nil {
+			c.R.Undecided(in.rule, name+"#worker", "anchor resolves", "no worker goroutine closure found in "+name)
+			continue
+		}
+		wps := c.paths(in.rule, worker, px.Config{Model: stdModel, MayPanic: userPanics})
+		c.forall(in.rule, name+"#release", "the worker runs the user function once and, on every exit incl. its panic, releases its slot (one receive) and the wait-group (one Done), after the user function", worker, wps, func(p *px.Path) (bool, string) {
+			users := p.All(func(e *px.Event) bool { return e.Kind == px.EvCall && e.Call.IsDyn() })
+			if len(users) != 1 {
+				return false, fmt.Sprintf("user function called %d times", len(users))
+			}
+			rel, done := 0, 0
+			for i := range p.Events {
+				e := &p.Events[i]
+				switch {
+				case (e.Kind == px.EvRecv || (e.Kind == px.EvSelect && e.SelIndex >= 0 && e.SelDir == types.RecvOnly)) && chanKey(p, e.Addr) == in.sem:
+					rel++
+					if e.Seq < users[0].Seq {
+						return false, "slot released before the user function ran"
+					}
+				case (e.Kind == px.EvSend) && chanKey(p, e.Addr) == in.sem:
+					return false, "worker sends on the semaphore"
+				case isWG(p, e, "Done"):
+					done++
+					if e.Seq < users[0].Seq {
+						return false, "wait-group released before the user function ran"
+					}
+				}
+			}
+			if rel != 1 || done != 1 {
+				return false, fmt.Sprintf("slot released ×%d, wait-group Done ×%d on exit %s", rel, done, p.Exit)
+			}
+			return true, ""
+		})
+	}
 }
